@@ -684,6 +684,9 @@ func TestVerif_C43(t *testing.T) {
 		c43run(r, rc)
 		return
 	}
+	if r.IsReplay() {
+		return // a recorded case of another unit of this check (filterstart)
+	}
 	ls := c43layouts(r)
 	if r.Thorough() {
 		ls = c43stride(ls)
